@@ -80,19 +80,19 @@ func isParam(f *chk.Fn, name string) func(ast.Expr) bool {
 			v = r
 		}
 	}
-	return func(e ast.Expr) bool { return v != nil && f.ObjOf(e) == types.Object(v) }
+	return func(e ast.Expr) bool { return v != nil && f.Denotes(e, v) }
 }
 
 // isParamIdx returns a predicate: the expression is the i-th parameter of f.
 func isParamIdx(f *chk.Fn, i int) func(ast.Expr) bool {
 	v := f.Param(i)
-	return func(e ast.Expr) bool { return v != nil && f.ObjOf(e) == types.Object(v) }
+	return func(e ast.Expr) bool { return v != nil && f.Denotes(e, v) }
 }
 
 // isRecv: the expression is the receiver of f.
 func isRecv(f *chk.Fn) func(ast.Expr) bool {
 	v := f.Recv()
-	return func(e ast.Expr) bool { return v != nil && f.ObjOf(e) == types.Object(v) }
+	return func(e ast.Expr) bool { return v != nil && f.Denotes(e, v) }
 }
 
 // constStr: e is a string constant with one of the given values.
@@ -131,20 +131,62 @@ func definedBy(g *chk.Graph, pat string, checks ...chk.HoleCheck) func(ast.Expr)
 	return func(e ast.Expr) bool {
 		id, ok := ast.Unparen(e).(*ast.Ident)
 		if !ok {
-			return false
+			// the value written in place instead of through a local
+			return g.Fn.MatchWith(pat, ast.Unparen(e), checks...) != nil
 		}
 		rhs, _ := g.DefOf(id, g.FactSite(id))
-		return rhs != nil && g.Fn.MatchWith(pat, rhs, checks...) != nil
+		if rhs != nil && g.Fn.MatchWith(pat, rhs, checks...) != nil {
+			return true
+		}
+		// through a chain of temporaries
+		if r := g.Fn.Resolve(id); r != ast.Expr(id) {
+			return g.Fn.MatchWith(pat, r, checks...) != nil
+		}
+		return false
 	}
 }
 
 // rangeVar returns predicates for the key and value variables of a range stmt.
+// The element of the current iteration is the value variable, or X[k] / &X[k]
+// (directly or through a local) where X is the ranged expression and k the key
+// variable: `for _, v := range X` and `for i := range X { v := &X[i]` agree.
 func rangeVal(f *chk.Fn, rs *ast.RangeStmt) func(ast.Expr) bool {
-	var o types.Object
+	var o, k types.Object
 	if id, ok := rs.Value.(*ast.Ident); ok {
 		o = f.ObjOf(id)
 	}
-	return func(e ast.Expr) bool { return o != nil && f.ObjOf(e) == o }
+	if id, ok := rs.Key.(*ast.Ident); ok && id.Name != "_" {
+		k = f.ObjOf(id)
+	}
+	_, isMap := f.Info().TypeOf(rs.X).Underlying().(*types.Map)
+	return func(e ast.Expr) bool {
+		if o != nil && f.Denotes(e, o) {
+			return true
+		}
+		if k == nil {
+			return false
+		}
+		r := f.Resolve(e)
+		for i := 0; i < 3; i++ {
+			switch x := ast.Unparen(r).(type) {
+			case *ast.UnaryExpr:
+				if x.Op == token.AND {
+					r = f.Resolve(x.X)
+					continue
+				}
+			case *ast.StarExpr:
+				r = f.Resolve(x.X)
+				continue
+			}
+			break
+		}
+		ix, ok := ast.Unparen(r).(*ast.IndexExpr)
+		if !ok || !f.Denotes(ix.Index, k) {
+			return false
+		}
+		_ = isMap
+		return f.SameExpr(ix.X, rs.X)
+	}
 }
 
 func rangeKey(f *chk.Fn, rs *ast.RangeStmt) func(ast.Expr) bool {
@@ -152,7 +194,7 @@ func rangeKey(f *chk.Fn, rs *ast.RangeStmt) func(ast.Expr) bool {
 	if id, ok := rs.Key.(*ast.Ident); ok {
 		o = f.ObjOf(id)
 	}
-	return func(e ast.Expr) bool { return o != nil && f.ObjOf(e) == o }
+	return func(e ast.Expr) bool { return o != nil && f.Denotes(e, o) }
 }
 
 // returnsOf lists the return statements of a function.
